@@ -171,7 +171,8 @@ def run(tier):
         if k not in seen:
             seen.add(k)
             uniq.append(c)
-    cases = uniq
+    # TLC's workers print in no particular order: a fixed order makes the item numbers and the samples reproducible
+    cases = sorted(uniq, key=lambda c: json.dumps(c["item"], sort_keys=True))
     model_silent = [c for c in cases if c["documented"] and c["pred"] == "Accept"]
     # REPLAY: in-process expansion of every item
     srcs = [item_src(c["item"], "T%d" % n) for n, c in enumerate(cases)]
@@ -187,7 +188,11 @@ def run(tier):
     exp_other = [(n, c) for n, c in cand if not (c["pred"] == "Accept" and not c["documented"])]
     nprobe = 400 if q else 4000
     rnd.shuffle(exp_ok)
-    sel_ok = exp_ok[:nprobe]
+    # every accepted item with generics or an unusual identifier is compiled (rustc, not the derive, sees the
+    # where clause), plus a sample of the rest
+    special = [(n, c) for n, c in exp_ok if c["item"].get("gen", "none") != "none" or c["item"].get("ident", "a") != "a"]
+    plain = [(n, c) for n, c in exp_ok if not (c["item"].get("gen", "none") != "none" or c["item"].get("ident", "a") != "a")]
+    sel_ok = special[:3000 if q else 30000] + plain[:nprobe]
     out = compile_probe([(n, c["src"]) for n, c in sel_ok], "ok")
     if any(x != "ok" for x in out.values()):
         # an error in one item can hide nothing here (all are reported in one phase), keep the verdicts
@@ -239,7 +244,7 @@ def run(tier):
            "must_be_diagnosed": sum(1 for c in cases if c["documented"]), "drift": len(drift),
            "case_conversion_records": cov09["records_adjudicated"],
            "exhaustive": True,
-           "rule": "items = {struct, enum} x 6 field shapes x subsets (sizes per slice) of attribute palettes at container / variant / field level (valid keys, unknown keys, wrong value forms, ts and serde spellings) x field type next to `optional`; plus every identifier x rule of the C09 domain for the never-panics part"}
+           "rule": "items = {struct, enum} x 6 field shapes x subsets (sizes per slice) of attribute palettes at container / variant / field level (valid keys, unknown keys, wrong value forms, ts and serde spellings) x field type next to `optional`; two further slices put generics (type / bounded / where / default / const / lifetime / two parameters) and unusual identifiers (raw, non-ASCII, underscores) on the items - all accepted ones of these are compiled by rustc; plus every identifier x rule of the C09 domain for the never-panics part"}
     vlib.write_evidence(PROP, tier, "model_checking", cov,
                         ["rustc is asked only about accepted items without serde attributes (a probe crate cannot contain #[serde] without serde's derive)",
                          "generic items: 7 parameter-list shapes on named / tuple bodies; identifiers: raw, non-ASCII, `__`, upper-case, `_1`"],
